@@ -94,6 +94,8 @@ def main(argv=None):
     a = ap.parse_args(argv)
     pid = a.pid.upper()
     seed = int(os.environ.get("VERIF_SEED", "1"))
+    if a.sub:
+        a.no_evidence = True  # partial runs never rewrite the evidence file
 
     if a.worker:
         mod = load_prop(pid)
@@ -128,7 +130,7 @@ def main(argv=None):
         n = s.shards(a.tier)
         for i in range(n):
             tasks.append((s, i, n))
-    if not a.sub and glob.glob(os.path.join(VERIF, "replays", pid, "*.json")):
+    if (not a.sub or "__replays__" in a.sub) and glob.glob(os.path.join(VERIF, "replays", pid, "*.json")):
         tasks.append((core.Sub("__replays__", check=None, search=None), 0, 1))
     # longest first (subs may give a weight)
     tasks.sort(key=lambda t: -getattr(t[0], "weight", 1))
